@@ -471,9 +471,21 @@ thread_local! {
 
 pub fn execute(c: &Case, stats: &mut RunStats) -> Option<Found> {
     entropy::set_seed(Some(c.entropy_seed));
-    env::set_cwd(Some(PathBuf::from(WS)));
-    let mut d = c.project.disk();
-    d.faults = c.faults.clone();
+    // one project in thirty lives in a directory whose name is not valid UTF-8 (legal on Unix)
+    let root = root_of(c);
+    env::set_cwd(Some(root.clone()));
+    let mut d = c.project.disk_at(&root);
+    d.faults = c
+        .faults
+        .iter()
+        .cloned()
+        .map(|mut f| {
+            if let Ok(rel) = f.path.strip_prefix(WS) {
+                f.path = disk::normalize(&root.join(rel));
+            }
+            f
+        })
+        .collect();
     // logical clock for loops over the file system (import discovery): a project of <= 5 files
     // with a few dozen import statements needs a few hundred reads at most
     d.read_budget = Some(READ_BUDGET);
@@ -483,7 +495,7 @@ pub fn execute(c: &Case, stats: &mut RunStats) -> Option<Found> {
     // one run in four also renders its diagnostics to a stream that fails after 0..400 bytes
     let sf = rng::derive(c.entropy_seed, "envsim.stdout_fault", 0);
     STDOUT_FAULT.with(|f| f.set(if sf % 4 == 0 { (((sf >> 8) % 400) as usize, if (sf >> 4) % 2 == 0 { 32 } else { 28 }) } else { (0, 0) }));
-    let found = execute_inner(c, &paths, stats);
+    let found = execute_inner(c, &root, &paths, stats);
     let ps = passwatch::uninstall();
     stats.max_passes = ps.max_passes as u64;
     stats.max_work = ps.max_work;
@@ -508,7 +520,16 @@ fn nonterm(pipeline: &str, v: &str) -> Found {
     }
 }
 
-fn execute_inner(c: &Case, paths: &BTreeSet<PathBuf>, stats: &mut RunStats) -> Option<Found> {
+fn root_of(c: &Case) -> PathBuf {
+    use std::os::unix::ffi::OsStringExt;
+    if rng::derive(c.entropy_seed, "envsim.root", 0) % 30 == 0 {
+        PathBuf::from(std::ffi::OsString::from_vec(b"/w\xffs".to_vec()))
+    } else {
+        PathBuf::from(WS)
+    }
+}
+
+fn execute_inner(c: &Case, root: &Path, paths: &BTreeSet<PathBuf>, stats: &mut RunStats) -> Option<Found> {
     let cfg = if c.project.toml.is_empty() {
         Config::default()
     } else {
@@ -520,7 +541,7 @@ fn execute_inner(c: &Case, paths: &BTreeSet<PathBuf>, stats: &mut RunStats) -> O
     };
     match c.pipeline.as_str() {
         "build" => {
-            let r = std::panic::catch_unwind(std::panic::AssertUnwindSafe(|| build_command(Path::new(WS), &cfg)));
+            let r = std::panic::catch_unwind(std::panic::AssertUnwindSafe(|| build_command(root, &cfg)));
             if let Some(v) = passwatch::take_verdict() {
                 return Some(nonterm("build", &v));
             }
@@ -562,7 +583,7 @@ fn execute_inner(c: &Case, paths: &BTreeSet<PathBuf>, stats: &mut RunStats) -> O
             }
         }
         "analysis" => {
-            let entry = cfg.build.input_path(Path::new(WS));
+            let entry = cfg.build.input_path(root);
             let r = std::panic::catch_unwind(std::panic::AssertUnwindSafe(|| {
                 let (tree, perr) = mos_core::parser::parse(&entry, FileSystemParsingSource::new().into());
                 let mut found = None;
@@ -619,7 +640,7 @@ fn execute_inner(c: &Case, paths: &BTreeSet<PathBuf>, stats: &mut RunStats) -> O
             }
         }
         "lsp" => {
-            let main_path = disk::normalize(&Path::new(WS).join("main.asm"));
+            let main_path = disk::normalize(&root.join("main.asm"));
             let main_text = disk::with(|d| d.files.get(&main_path).cloned()).flatten();
             // Between the analysis at start-up and the one triggered by didOpen the disk changes under the
             // server (a file of the project is deleted, cut to its first line or rewritten outside the editor).
@@ -651,7 +672,7 @@ fn execute_inner(c: &Case, paths: &BTreeSet<PathBuf>, stats: &mut RunStats) -> O
                     });
                 }
                 if let Some(Ok(t)) = main_text.map(String::from_utf8) {
-                    let uri = lsp_types::Url::from_file_path(Path::new(WS).join("main.asm")).unwrap();
+                    let uri = lsp_types::Url::from_file_path(root.join("main.asm")).unwrap();
                     let msg = lsp_server::Message::Notification(lsp_server::Notification {
                         method: "textDocument/didOpen".into(),
                         params: json!({"textDocument": {"uri": uri.to_string(), "languageId": "asm", "version": 0, "text": t}}),
